@@ -58,6 +58,17 @@ func (sp *Scope) CurrentBlockID() int {
 	return sp.blockIDs[len(sp.blockIDs)-1]
 }
 
+// FlattenToRoot - make everything that is declared now a declaration of the root level (the
+// body of an imported module has run: what it declared stays, for the module's methods)
+func (sp *Scope) FlattenToRoot() {
+	for i := 0; i < sp.localCount; i++ {
+		sp.locals[i].depth = 0
+	}
+	sp.currentDepth = 0
+	sp.joinedDepths = map[int]bool{}
+	sp.blockIDs = nil
+}
+
 // Depth - current nesting depth
 func (sp *Scope) Depth() int {
 	return sp.currentDepth
